@@ -63,6 +63,10 @@ mod identify_schema {
     include!(concat!(env!("OUT_DIR"), "/identify.rs"));
 }
 
+#[cfg(litep2p_verif)]
+#[path = "../../verif/c19_identify.rs"]
+pub(crate) mod verif_c19;
+
 /// Identify configuration.
 pub struct Config {
     /// Protocol name.
